@@ -19,6 +19,7 @@ Inductive op :=
 | OpRefCoord (name : bs) (s l : Z)    (* ints = [alistart; alilen] *)
 | OpRefSites (name : bs) (sites : list Z)
 | OpSubseqRef (name : bs) (s l : Z)   (* the command line: goalign subseq --ref-seq; err = non-zero exit status *)
+| OpSubseqRev (s l : Z)               (* the command line: goalign subseq --reverse (all but the window) *)
 | OpConcat (calpha : Z) (c : brows)
 | OpPrefixSuffix (k : Z)              (* SubAlign(0,k), SubAlign(k,L-k), Concat *)
 | OpSplit (ranges : list (bs * (Z * Z * Z)))   (* AddRange(name, start, end, modulo) calls, then Split *)
@@ -74,6 +75,20 @@ Definition model_ok (c : case) : bool :=
       match ref_coordinates rs (unbs name) s l with
       | Some (st, ln, false) => optrows_ok (c_err c) out (sub_align rs st ln)
       | _ => c_err c
+      end
+  | OpSubseqRev s l =>
+      (* InverseCoordinates, SubAlign of each block, Concat; nothing left is an error *)
+      match inverse_coordinates rs s l with
+      | Some (sts, lns) =>
+          match map (fun sl => sub_align rs (fst sl) (snd sl)) (combine sts lns) with
+          | [] => c_err c
+          | [Some p] => negb (c_err c) && rows_eqb out p
+          | [Some p; Some q] =>
+              let '(res, ok) := concat (c_alpha c) (c_alpha c) p q in
+              Bool.eqb ok (negb (c_err c)) && rows_eqb out res
+          | _ => false
+          end
+      | None => c_err c
       end
   | OpConcat calpha cr =>
       let '(res, ok) := concat (c_alpha c) calpha rs (unrows cr) in
@@ -209,6 +224,13 @@ Definition spec_body (c : case) : bool :=
             negb (c_err c) && rows_eqb out (map (fun r => (fst r, wnd st (en - st + 1) (snd r))) rs)
           else c_err c
       end
+  | OpSubseqRev s l =>
+      (* every column outside the window, in order; an invalid window or an empty complement is an error *)
+      let L := alen rs in
+      if (0 <=? s) && (0 <=? l) && (s + l <=? L) && negb ((s =? 0) && (l =? L)) then
+        negb (c_err c) &&
+        rows_eqb out (map (fun r => (fst r, firstn (Z.to_nat s) (snd r) ++ skipn (Z.to_nat (s + l)) (snd r))) rs)
+      else c_err c
   | OpRefSites name sites =>
       match get_seq (unbs name) rs with
       | None => c_err c
